@@ -170,6 +170,9 @@ def run_one(specs, cblock, cleanup):
                 return len(args)
             cb = edzed.FuncBlock('cb', func=fn).connect(*[b.name for b in blocks])
             allblocks.append(cb)
+            # a combinational block fed by constants only must get its output in the first evaluation too
+            allblocks.append(edzed.Not('cconst').connect(False))
+            allblocks.append(edzed.FuncBlock('cconst2', func=lambda a, b: a + b).connect(10, 2))
         t0 = loop.vt_us
         orig_async = circuit._init_sblocks_async
 
@@ -417,6 +420,19 @@ def gen_base(rng, nmax):
     n = rng.choice([1, 2, 2, 3, 3, 3, 4][:max(1, nmax * 2 - 1)]) if nmax < 4 else rng.choice([2, 3, 3, 4, 4])
     kinds = [rng.choice(['probe'] * 6 + ['initasync', 'valuepoll']) for _ in range(n)]
     base = [gen_spec(rng, k) for k in kinds]
+    # no two routines of one configuration finish at the same instant: the order in which asyncio
+    # runs several timers of one instant is not defined (heap order), the model would have to guess
+    used = set()
+    for sp in base:
+        if sp['async'] is None or sp['async'][1] == 'never':
+            continue
+        while sp['async'][2] in used:
+            if sp['kind'] == 'valuepoll':
+                sp['poll_i'] += 2
+                sp['async'][2] = sp['poll_i'] * sp['poll_k']
+            else:
+                sp['async'][2] += 4
+        used.add(sp['async'][2])
     order = list(range(n))
     rng.shuffle(order)                      # hidden topological order of the event graph
     p = rng.choice([0.2, 0.5, 0.8])
@@ -481,7 +497,8 @@ def check(run):
                 "configuration is run. Observed: call log of the init routines and handlers, wait_init() "
                 "outcome, outputs and is_ready() at that moment, virtual time spent. Non-trivial = an "
                 "init-time event was handled or an init_async task ran.")
-    run.assumptions = [
+    run.assumptions = ["no two init_async routines / ValuePoll values of one configuration are due at the same instant",
+                       
                        "completion times and timeouts never coincide (timeouts 0 mod 4, completions 2 mod 4, poll instants odd, in ticks of 0.5 ms): the order "
                        "of two asyncio timers of the same instant is not modelled",
                        "library blocks InitAsync/ValuePoll are event sources only, never destinations",
